@@ -498,8 +498,11 @@ def avoid_dead_links(root, machine, wrap_around=False):
                 # of the A* path.
                 new_node = lookup[(x, y)]
 
-                # Find the node's current parent and disconnect it.
-                for node in lookup[child]:  # pragma: no branch
+                # Find the node's current parent and disconnect it. (Note: the
+                # parent may itself already have been severed from the
+                # disconnected tree by an earlier step along this path so all
+                # known nodes must be searched.)
+                for node in list(lookup.values()):  # pragma: no branch
                     dn = [(d, n) for d, n in node.children if n == new_node]
                     assert len(dn) <= 1
                     if dn:
